@@ -13,13 +13,14 @@ type FrSpec struct {
 	SrcIP    uint32
 	DstIP    uint32
 	TTL      int
-	IHL      int // 5 or 6 (one 4-byte NOP option word)
+	IHL      int // 5..15 header words, options are NOPs
 	MF       bool
 	FragOff  int
 	SrcPort  int
 	DstPort  int
 	TCPFlags int // 9 bits
 	TCPOpts  bool
+	TCPDoff  int // > 5: that many header words, the options filled with NOPs
 	Payload  []byte
 	ICMPType int
 	ICMPCode int
@@ -41,7 +42,9 @@ func frSum(b []byte, init uint32) uint16 {
 	return ^uint16(s)
 }
 
-func frPut32(b []byte, v uint32) { b[0], b[1], b[2], b[3] = byte(v>>24), byte(v>>16), byte(v>>8), byte(v) }
+func frPut32(b []byte, v uint32) {
+	b[0], b[1], b[2], b[3] = byte(v>>24), byte(v>>16), byte(v>>8), byte(v)
+}
 
 func frIPv4(s *FrSpec, proto int, payload []byte) []byte {
 	ihl := s.IHL
@@ -86,6 +89,9 @@ func frTCP(s *FrSpec) []byte {
 	if s.TCPOpts {
 		n = 24
 	}
+	if s.TCPDoff > 5 {
+		n = s.TCPDoff * 4
+	}
 	t := make([]byte, n, n+len(s.Payload))
 	t[0], t[1] = byte(s.SrcPort>>8), byte(s.SrcPort)
 	t[2], t[3] = byte(s.DstPort>>8), byte(s.DstPort)
@@ -96,6 +102,11 @@ func frTCP(s *FrSpec) []byte {
 	t[14], t[15] = 0xfa, 0xf0
 	if s.TCPOpts {
 		t[20], t[21], t[22], t[23] = 2, 4, 5, 0xb4
+	}
+	if s.TCPDoff > 5 {
+		for i := 20; i < n; i++ {
+			t[i] = 1
+		}
 	}
 	t = append(t, s.Payload...)
 	c := frSum(t, frPseudo(s, 6, len(t)))
